@@ -455,7 +455,9 @@ pub fn main(tier: Tier, replay: Option<String>) -> i32 {
         },
     };
     let bound = json!({"init_len": es.init_len, "depth": es.depth, "single_menu": es.repl_single, "pair_menu": es.repl_pair, "max_chars_before_batch": es.max_chars});
-    jobs.push(job(es, Strategy::Bfs, Some(tier.pick(45, 1800)), bound));
+    // breadth-first in the quick tier (shortest counterexample first); depth-first in the thorough tier,
+    // whose frontier of real buffers would not fit into memory breadth-first
+    jobs.push(job(es, tier.pick(Strategy::Bfs, Strategy::Dfs), Some(tier.pick(45, 1800)), bound));
     // morpheme-level statement on the C01 trees (primary world only in quick)
     for (i, j) in c01::jobs(tier, c08_text_oracle).into_iter().enumerate() {
         if tier == Tier::Quick && i > 1 {
